@@ -489,7 +489,16 @@ AnyP::Uri::parse(const HttpRequestMethod& method, const SBuf &rawUrl)
             if (t && *t == ':') {
                 *t = '\0';
                 ++t;
-                foundPort = atoi(t);
+                // port = *DIGIT. atoi() accepted signs and trailing garbage and
+                // truncated huge numbers; an empty port stays 0 (rejected below).
+                foundPort = 0;
+                for (const char *digit = t; *digit; ++digit) {
+                    if (!xisdigit(*digit) || foundPort > 65535) {
+                        foundPort = -1; // rejected below
+                        break;
+                    }
+                    foundPort = foundPort * 10 + (*digit - '0');
+                }
             }
         }
 
